@@ -14,7 +14,7 @@ for (pid, k), (what, needs) in sorted(NEEDS.items()):
     src = os.path.join(STAGE if k <= 2 else (STAGE + '2' if k <= 4 else (STAGE + '3' if os.path.isdir(os.path.join(STAGE + '3', pid)) else STAGE + '4')), pid)
     round4 = k > 4 and src.startswith(STAGE + '4')
     if k > 6:
-        src = os.path.join(STAGE + ('5' if k <= 8 else '6'), pid)
+        src = os.path.join(STAGE + ('5' if k <= 8 else '6' if k <= 10 else '7'), pid)
     sk = ((k - 1) % 2) + 1
     if not os.path.isdir(src):
         continue  # staging area gone (fresh session): keep what is already assembled
@@ -31,7 +31,7 @@ for (pid, k), (what, needs) in sorted(NEEDS.items()):
     mpi = 'mpi' in open(os.path.join(src, demo)).read().lower()
     meta = {
         "property": pid,
-        "origin": "independent sub-agent given only the property record and a scratch worktree of /repo (no access to /verif)" + ("" if k <= 2 else ("; round 2: additionally told the round-1 changes and the reverted fixes and asked for different mechanisms" if k <= 4 else "; round " + ("6" if k > 8 else "5" if k > 6 else "4" if round4 else "3") + ": told the earlier rounds, pointed at less obvious files and at changes that need two cooperating sites")),
+        "origin": "independent sub-agent given only the property record and a scratch worktree of /repo (no access to /verif)" + ("" if k <= 2 else ("; round 2: additionally told the round-1 changes and the reverted fixes and asked for different mechanisms" if k <= 4 else "; round " + ("7" if k > 10 else "6" if k > 8 else "5" if k > 6 else "4" if round4 else "3") + ": told the earlier rounds, pointed at less obvious files and at changes that need two cooperating sites")),
         "change": what,
         "needs_to_manifest": needs,
         "confirmed_by_me": confirmed,
